@@ -71,3 +71,46 @@ inst!(c16_nan_n1_q3, 1, 3, true, 5);
 inst!(c16_nan_n2_q3, 2, 3, true, 5);
 inst!(c16_nan_n3_q3, 3, 3, true, 5);
 inst!(c16_nan_n4_q4, 4, 4, true, 6);
+
+/// History independence of the evaluator's *state* (thorough tier; needs the read-only accessor behind
+/// `--cfg piecewise_polynomial_verif`).  If the state after (l1, l2, x) equals the state after (x) alone for all
+/// l1, l2, x, then by induction the state after ANY history equals the state after its last query, so histories of
+/// every length reduce to length <= 2 and the Q=3 harnesses above cover them (for N within the bound).  This is
+/// stronger than the property (it speaks about the representation), so its failure alone is not a violation.
+#[cfg(piecewise_polynomial_verif)]
+fn state_independent<const N: usize>() {
+    let ends: [f64; N] = kani::any();
+    let ids: [u64; N] = kani::any();
+    kani::assume(non_decreasing_non_nan(&ends));
+    let pw = build_probe(&ends, &ids);
+    let l1: f64 = kani::any();
+    let l2: f64 = kani::any();
+    let x: f64 = kani::any();
+    kani::assume(!l1.is_nan() && !l2.is_nan() && !x.is_nan());
+    let mut a = PiecewiseEvaluator::new(&pw.segments);
+    let _ = a.evaluate(l1);
+    let _ = a.evaluate(l2);
+    let ra = a.evaluate(x);
+    let mut b = PiecewiseEvaluator::new(&pw.segments);
+    let rb = b.evaluate(x);
+    assert!(ra.to_bits() == rb.to_bits(), "answer depends on earlier queries");
+    assert!(a.verif_state() == b.verif_state(), "evaluator state after (l1,l2,x) differs from the state after (x)");
+    kani::cover!(l1 > x && l2 < x, "history moves forward, back below x, then to x");
+}
+
+#[cfg(piecewise_polynomial_verif)]
+macro_rules! indep {
+    ($name:ident, $n:expr, $unw:expr) => {
+        #[kani::proof]
+        #[kani::unwind($unw)]
+        fn $name() {
+            state_independent::<$n>()
+        }
+    };
+}
+#[cfg(piecewise_polynomial_verif)]
+indep!(c03_state_indep_n2, 2, 5);
+#[cfg(piecewise_polynomial_verif)]
+indep!(c03_state_indep_n3, 3, 6);
+#[cfg(piecewise_polynomial_verif)]
+indep!(c03_state_indep_n4, 4, 7);
